@@ -605,7 +605,7 @@ Next ==
              /\ viol' = viol \cup (IF d = {} THEN {} ELSE {V(ev, SetOfSeq(ev.props), ev.fmt \o " file written and read back is a different problem: " \o ToString(d))})
              /\ UNCHANGED <<st, slot, ans, glob>>
           ELSE IF ev.call = "eq_answer" THEN
-             LET r1 == st[ev.h].lastres  r2 == st[ev.h2].lastres
+             LET r1 == IF st[ev.h].live THEN st[ev.h].lastres ELSE NoneR  r2 == IF st[ev.h2].live THEN st[ev.h2].lastres ELSE NoneR
                  \* law between the two optimal values: val(h) = sign * val(h2) + off   (C15 transformations; default: equal)
                  v2 == IF r2.val = "?" THEN "?" ELSE RAdd(IF "neg" \in DOMAIN ev /\ ev.neg = 1 THEN RNeg(r2.val) ELSE r2.val, IF "off" \in DOMAIN ev THEN ev.off ELSE "0")
                  bad == ~IsNone(r1) /\ ~IsNone(r2) /\ (r1.status # r2.status \/ (r1.status = 1 /\ r1.val # "?" /\ v2 # "?" /\ r1.val # v2)) IN
